@@ -19,6 +19,7 @@ import (
 	"verif/harness/core"
 	"verif/harness/gen"
 	"verif/harness/goast"
+	"verif/harness/jv"
 	"verif/harness/model"
 )
 
@@ -165,6 +166,15 @@ func placementCheck(m *multiCase, cs *gen.Case, res *gen.Result) []string {
 		for n, k := range tc {
 			if k > 1 {
 				probs = append(probs, fmt.Sprintf("type %s declared %d times in package %s", n, k, pkg))
+			}
+			// definition names are unique across the case's files (Base apart), so a numbered twin
+			// means the definition was emitted twice
+			for _, sn := range names {
+				for _, dn := range sn.defs {
+					if strings.HasPrefix(n, dn+"_") && isDigits(n[len(dn)+1:]) {
+						probs = append(probs, fmt.Sprintf("definition %s of schema %s is declared a second time as %s (package %s)", dn, sn.file, n, pkg))
+					}
+				}
 			}
 		}
 	}
@@ -319,6 +329,72 @@ func evalC20(cases []*gen.Case, m *multiCase, build bool) (bool, string, error) 
 	return len(probs) > 0, strings.Join(probs, "\n"), nil
 }
 
+// directedLayoutCase: hand-shaped directory layouts that the random generator
+// does not reach while all files sit in one directory.
+//
+//	0: t/common.json and t/sub/common.json (same base name, both define Base) and
+//	   t/sub/api.json referring to "../common.json#/$defs/Base" and to
+//	   "common.json#/$defs/Base" (or "./common.json..."): each reference binds to
+//	   its own file, both files' code is emitted where their ids are mapped;
+//	1: common.json referenced as "common.json#/$defs/Limits" from root.json and as
+//	   "../common.json#/$defs/Limits" from svc/api.json (Limits has integer
+//	   properties with integral defaults): one declaration of Limits.
+func directedLayoutCase(t *rapid.T, c *core.Ctx, which int) *multiCase {
+	m := &multiCase{pkgOf: map[string]string{}, outOf: map[string]string{}, rootOf: map[string]string{}}
+	m.cfg = gen.Config{DefaultPackage: "example.com/gen/defpkg", DefaultOutput: "out/defpkg/default.go"}
+	obj := func(props ...model.Prop) *model.Node { return &model.Node{Kind: model.KObject, Props: props} }
+	str := func() *model.Node { return &model.Node{Kind: model.KString} }
+	mapf := func(f *model.File, pkg, out, root string) {
+		m.cfg.Mappings = append(m.cfg.Mappings, gen.Mapping{ID: f.ID, Package: pkg, Output: out, RootType: root})
+		m.pkgOf[f.RelPath], m.outOf[f.RelPath], m.rootOf[f.RelPath] = pkg, out, root
+		m.mapped++
+	}
+	switch which {
+	case 0:
+		topBase := obj(model.Prop{Name: "top", Node: str()})
+		topBase.Required = []string{"top"}
+		subBase := obj(model.Prop{Name: "sub", Node: &model.Node{Kind: model.KInteger}})
+		subBase.Required = []string{"sub"}
+		top := &model.File{RelPath: "t/common.json", ID: "https://example.com/top-common", Root: obj(model.Prop{Name: "topOnly", Node: str()}),
+			Defs: []model.Def{{Name: "Base", Node: topBase}, {Name: "TopDef", Node: obj(model.Prop{Name: "x", Node: str()})}}}
+		sub := &model.File{RelPath: "t/sub/common.json", ID: "https://example.com/sub-common", Root: obj(model.Prop{Name: "subOnly", Node: str()}),
+			Defs: []model.Def{{Name: "Base", Node: subBase}, {Name: "SubDef", Node: obj(model.Prop{Name: "y", Node: str()})}}}
+		local := rapid.SampledFrom([]string{"common.json", "./common.json"}).Draw(t, "localspelling")
+		props := []model.Prop{
+			{Name: "owner", Node: &model.Node{Kind: model.KRef, Ref: "../common.json#/$defs/Base", Target: topBase}},
+			{Name: "local", Node: &model.Node{Kind: model.KRef, Ref: local + "#/$defs/Base", Target: subBase}},
+		}
+		if rapid.Bool().Draw(t, "localfirst") {
+			props[0].Name, props[1].Name = "zowner", "alocal"
+		}
+		api := &model.File{RelPath: "t/sub/api.json", ID: "https://example.com/api", Root: obj(props...)}
+		m.files = []*model.File{api, top, sub}
+		m.inputs = []string{api.RelPath}
+		mapf(api, "example.com/gen/papi", "out/papi/api.go", "ApiRoot")
+		mapf(top, "example.com/gen/ptop", "out/ptop/common.go", "TopCommon")
+		mapf(sub, "example.com/gen/psub", "out/psub/common.go", "SubCommon")
+		m.crossRef = 2
+		c.Count("shape.directed.same_basename_parent_and_sibling")
+	default:
+		ten, zero := jv.IntV(int64(rapid.IntRange(1, 500).Draw(t, "defmax"))), jv.IntV(0)
+		limits := obj(model.Prop{Name: "max", Node: &model.Node{Kind: model.KInteger, Default: &ten}}, model.Prop{Name: "min", Node: &model.Node{Kind: model.KInteger, Default: &zero}}, model.Prop{Name: "label", Node: str()})
+		common := &model.File{RelPath: "common.json", ID: "https://example.com/common", Root: obj(model.Prop{Name: "c", Node: str()}), Defs: []model.Def{{Name: "Limits", Node: limits}}}
+		root := &model.File{RelPath: "root.json", ID: "https://example.com/rootdoc", Root: obj(model.Prop{Name: "limits", Node: &model.Node{Kind: model.KRef, Ref: "common.json#/$defs/Limits", Target: limits}})}
+		api := &model.File{RelPath: "svc/api.json", ID: "https://example.com/svcapi", Root: obj(model.Prop{Name: "quota", Node: &model.Node{Kind: model.KRef, Ref: "../common.json#/$defs/Limits", Target: limits}})}
+		m.files = []*model.File{root, api, common}
+		m.inputs = []string{root.RelPath, api.RelPath}
+		if rapid.Bool().Draw(t, "apifirst") {
+			m.inputs = []string{api.RelPath, root.RelPath}
+		}
+		mapf(root, "example.com/gen/proot", "out/proot/root.go", "RootDoc")
+		mapf(api, "example.com/gen/psvc", "out/psvc/api.go", "SvcApi")
+		mapf(common, "example.com/gen/pcommon", "out/pcommon/common.go", "CommonDoc")
+		m.crossRef = 2
+		c.Count("shape.directed.one_file_two_spellings")
+	}
+	return m
+}
+
 func TestC20(t *testing.T) {
 	c := core.New(t, "C20")
 	defer c.Finish()
@@ -343,6 +419,9 @@ func TestC20(t *testing.T) {
 		m := genMulti(rt, c, multiOpts{maxFiles: 4, uniqueDefs: true, blockPkgs: true, sameDir: sameDir, yamlFiles: false, sharedRefText: shared})
 		if shared {
 			c.Count("shape.shared_ref_text")
+		}
+		if d := rapid.IntRange(0, 15).Draw(rt, "directed"); d < 2 {
+			m = directedLayoutCase(rt, c, d)
 		}
 		if sameDir {
 			c.ExcludedMap()["paths.argument_also_ref_target"]++
@@ -556,4 +635,16 @@ func runStateful(c *core.Ctx, sameDir bool) {
 			c.Infra("rapid (stateful) failed without a case: " + core.Clip(res.Msg, 400))
 		}
 	}
+}
+
+func isDigits(s string) bool {
+	if s == "" {
+		return false
+	}
+	for _, r := range s {
+		if r < '0' || r > '9' {
+			return false
+		}
+	}
+	return true
 }
